@@ -54,6 +54,13 @@ Matches(ev) ==
           /\ \A i \in 1..Len(tu') : ev.obs.all[i] = TGet(tree', tu'[i])
           /\ Len(ev.obs.rel) = Len(tr')
           /\ \A i \in 1..Len(tr') : ev.obs.rel[i] = TGet(tree', tr'[i])
+          \* every typed entry point (mpt_config_getp, mpt_config_get, config::get with target type
+          \* and destination) answers each path like the plain query: the value or <<-1>> (absent);
+          \* <<-2>> = success answered without writing the destination is never an answer of the map
+          /\ "typed" \in DOMAIN ev.obs => \A i \in 1..Len(tu') : ev.obs.typed[i] = TGet(tree', tu'[i])
+          /\ "tget" \in DOMAIN ev.obs => \A i \in 1..Len(tu') : ev.obs.tget[i] = TGet(tree', tu'[i])
+          /\ "relt" \in DOMAIN ev.obs => \A i \in 1..Len(tr') : ev.obs.relt[i] = TGet(tree', tr'[i])
+          /\ "reltget" \in DOMAIN ev.obs => \A i \in 1..Len(tr') : ev.obs.reltget[i] = TGet(tree', tr'[i])
           /\ obs'.exp.anyret \/ obs'.exp.ret = ev.obs.ret
           \* node-list store: a removed element is released, nothing else is (number of allocated node blocks)
           /\ "nodes" \in DOMAIN ev.obs => ev.obs.nodes = Count(st')
